@@ -347,3 +347,472 @@ Qed.
 
 Lemma canon_wt t v : wt t v = true -> wt (canon t) (canon_val t v) = true.
 Proof. apply (proj1 canon_wt_mut). Qed.
+
+(* ================================================================== Part C *)
+Local Open Scope string_scope.
+
+(* induction principle that also hands out the hypothesis for the field list of an (embedded) struct field *)
+Lemma ty_fields_ind_emb (P : ty -> Prop) (P0 : fields -> Prop) :
+  (forall p, P (TPrim p)) -> P TAddress -> (forall nm p, P (TNamed nm p)) ->
+  (forall t, P t -> P (TSlice t)) -> (forall n t, P t -> P (TArray n t)) ->
+  (forall nm fs, P0 fs -> P (TStruct nm fs)) ->
+  P0 FNil ->
+  (forall i t r, P t -> (forall nm fs', t = TStruct nm fs' -> P0 fs') -> P0 r -> P0 (FCons i t r)) ->
+  (forall t, P t) /\ (forall fs, P0 fs).
+Proof.
+  intros Hp Ha Hn Hs Har Hst Hnil Hcons.
+  assert (H : (forall t, P t /\ (forall nm fs', t = TStruct nm fs' -> P0 fs')) /\ (forall fs, P0 fs)).
+  { apply ty_fields_ind.
+    - intros p. split; [apply Hp | intros nm fs' E; discriminate E].
+    - split; [apply Ha | intros nm fs' E; discriminate E].
+    - intros nm p. split; [apply Hn | intros nm' fs' E; discriminate E].
+    - intros t [IH _]. split; [now apply Hs | intros nm fs' E; discriminate E].
+    - intros n t [IH _]. split; [now apply Har | intros nm fs' E; discriminate E].
+    - intros nm fs IH. split; [now apply Hst | intros nm' fs' E; injection E as _ <-; exact IH].
+    - exact Hnil.
+    - intros i t [IHt IHe] r IHr. now apply Hcons. }
+  split; [intros t; apply (proj1 H) | apply (proj2 H)].
+Qed.
+
+(* ---- the supported universe and admissible struct names *)
+Definition builtin_names : list string :=
+  ["string"; "uint8"; "uint16"; "uint32"; "uint64"; "int8"; "int16"; "int32"; "int64"; "Address"].
+
+Definition good_name (nm : string) : bool :=
+  negb (mem_str nm builtin_names) &&
+  match nm with String c _ => negb (Ascii.eqb "[" c) | EmptyString => false end.
+
+Fixpoint sup (t : ty) : bool :=
+  match t with
+  | TPrim p => negb (prim_eqb p PBool)
+  | TAddress => true
+  | TNamed _ _ => false
+  | TSlice t' => sup t'
+  | TArray _ t' => sup t'
+  | TStruct nm fs => good_name nm && sup_fields fs
+  end
+with sup_fields (fs : fields) : bool :=
+  match fs with
+  | FNil => true
+  | FCons i t r => (if f_ser i then sup t else true) && sup_fields r
+  end.
+
+(* struct types NewABI has to describe for t: reachable through serialized fields, embedded structs flattened *)
+Fixpoint reach (t : ty) : list ty :=
+  match t with
+  | TSlice t' => reach t'
+  | TArray _ t' => reach t'
+  | TStruct nm fs => TStruct nm fs :: reach_fields fs
+  | _ => []
+  end
+with reach_fields (fs : fields) : list ty :=
+  match fs with
+  | FNil => []
+  | FCons i t r =>
+      if f_ser i then
+        (match t with
+         | TStruct _ fs' => if f_emb i then reach_fields fs' else reach t
+         | _ => reach t
+         end) ++ reach_fields r
+      else reach_fields r
+  end.
+
+Definition is_struct (t : ty) : Prop := exists nm fs, t = TStruct nm fs.
+
+(* struct names identify struct types *)
+Definition consistent (T : ty) : Prop :=
+  forall n f1 f2, In (TStruct n f1) (reach T) -> In (TStruct n f2) (reach T) -> f1 = f2.
+
+(* ---- strings *)
+Fixpoint no_rb (s : string) : bool :=
+  match s with EmptyString => true | String c s' => negb (Ascii.eqb c "]") && no_rb s' end.
+
+Lemma no_rb_uint d : no_rb (NilEmpty.string_of_uint d) = true.
+Proof. induction d; cbn; auto. Qed.
+
+Lemma split_rb_app ds s : no_rb ds = true -> split_rb (ds ++ String "]" s) = Some (ds, s).
+Proof.
+  induction ds as [|c ds IH]; intros H; cbn [append split_rb].
+  - reflexivity.
+  - cbn [no_rb] in H. apply andb_true_iff in H as [Hc Hr]. apply negb_true_iff in Hc. rewrite Hc, (IH Hr). reflexivity.
+Qed.
+
+Lemma dec_string_nonempty n : dec_string n <> "".
+Proof.
+  unfold dec_string. intros H.
+  assert (Hn : N.to_uint n <> Decimal.Nil).
+  { destruct n as [|p]; cbn; [discriminate | apply Unsigned.to_uint_nonnil]. }
+  destruct (N.to_uint n); try (cbn in H; discriminate H). now apply Hn.
+Qed.
+
+Lemma parse_array_ok n s : s <> "" -> parse_array ("[" ++ dec_string n ++ "]" ++ s) = Some (n, s).
+Proof.
+  intros Hs. cbn [append parse_array]. change (Ascii.eqb "[" "[") with true. cbn iota.
+  change (String "]" s) with (String "]" s).
+  rewrite split_rb_app by apply no_rb_uint.
+  pose proof (dec_string_nonempty n) as Hd.
+  destruct (dec_string n) as [|c r] eqn:E; [congruence|].
+  destruct s as [|c' s']; [congruence|].
+  rewrite <- E. unfold dec_string. rewrite NilEmpty.usu, DecimalN.Unsigned.of_to. reflexivity.
+Qed.
+
+Lemma drop_prefix_array n s : drop_prefix "[]" ("[" ++ dec_string n ++ "]" ++ s) = None.
+Proof.
+  cbn [append drop_prefix]. change (Ascii.eqb "[" "[") with true. cbn iota.
+  pose proof (dec_string_nonempty n) as Hd. pose proof (no_rb_uint (N.to_uint n)) as Hr.
+  fold (dec_string n) in Hr.
+  destruct (dec_string n) as [|c r]; [congruence|]. cbn [append no_rb] in *.
+  apply andb_true_iff in Hr as [Hc _]. apply negb_true_iff in Hc. rewrite Ascii.eqb_sym, Hc. reflexivity.
+Qed.
+
+Lemma reflect_slice f a s : reflect (S f) a ("[]" ++ s) = option_map TSlice (reflect f a s).
+Proof. reflexivity. Qed.
+
+Lemma reflect_array f a n s : s <> "" ->
+  reflect (S f) a ("[" ++ dec_string n ++ "]" ++ s) = option_map (TArray n) (reflect f a s).
+Proof.
+  intros Hs.
+  pose proof (drop_prefix_array n s) as Hd. pose proof (parse_array_ok n s Hs) as Hp.
+  cbn [append] in Hd, Hp |- *.
+  cbn [reflect]. cbn [String.eqb]. change (Ascii.eqb "[" "s") with false. change (Ascii.eqb "[" "u") with false.
+  change (Ascii.eqb "[" "i") with false. change (Ascii.eqb "[" "A") with false. cbn iota.
+  rewrite Hd, Hp. reflexivity.
+Qed.
+
+Lemma mem_builtin_false nm : mem_str nm builtin_names = false ->
+  String.eqb nm "string" = false /\ String.eqb nm "uint8" = false /\ String.eqb nm "uint16" = false /\
+  String.eqb nm "uint32" = false /\ String.eqb nm "uint64" = false /\ String.eqb nm "int8" = false /\
+  String.eqb nm "int16" = false /\ String.eqb nm "int32" = false /\ String.eqb nm "int64" = false /\
+  String.eqb nm "Address" = false.
+Proof.
+  unfold builtin_names. cbn [mem_str]. intros H.
+  repeat (apply orb_false_iff in H as [? H]). repeat split; assumption.
+Qed.
+
+Lemma reflect_struct f a nm : good_name nm = true ->
+  reflect (S f) a nm =
+  match lookup nm a with
+  | None => None
+  | Some fl => option_map (TStruct nm) (reflect_fields (reflect f a) fl)
+  end.
+Proof.
+  unfold good_name. intros H. apply andb_true_iff in H as [Hb Hc]. apply negb_true_iff in Hb.
+  destruct (mem_builtin_false nm Hb) as (E1 & E2 & E3 & E4 & E5 & E6 & E7 & E8 & E9 & E10).
+  cbn [reflect]. rewrite E1, E2, E3, E4, E5, E6, E7, E8, E9, E10.
+  destruct nm as [|c r]; [discriminate|]. apply negb_true_iff in Hc.
+  cbn [drop_prefix parse_array]. rewrite Hc. reflexivity.
+Qed.
+
+Lemma reflect_fields_app r l1 l2 :
+  reflect_fields r (l1 ++ l2) =
+  match reflect_fields r l1, reflect_fields r l2 with Some a, Some b => Some (fapp a b) | _, _ => None end.
+Proof.
+  induction l1 as [|[fn ft] l1 IH]; cbn [app reflect_fields].
+  - destruct (reflect_fields r l2); reflexivity.
+  - rewrite IH. destruct (r ft); [|reflexivity].
+    destruct (reflect_fields r l1); [|reflexivity]. destruct (reflect_fields r l2); reflexivity.
+Qed.
+
+Lemma tyname_nonempty t : sup t = true -> tyname t <> "".
+Proof.
+  destruct t as [p| |nm p|t'|n t'|nm fs]; cbn [sup tyname]; intros H.
+  - destruct p; discriminate.
+  - discriminate.
+  - discriminate.
+  - discriminate.
+  - discriminate.
+  - apply andb_true_iff in H as [H _]. unfold good_name in H. apply andb_true_iff in H as [_ H].
+    destruct nm; [discriminate H | discriminate].
+Qed.
+
+(* ---- C1: any ABI holding the descriptions of the reachable structs rebuilds canon t *)
+Definition abi_has (a : list abitype) (l : list ty) : Prop :=
+  forall n fs, In (TStruct n fs) l -> lookup n a = Some (fst (desc_fields fs)).
+
+Definition refl_P (t : ty) : Prop :=
+  forall a fuel, (height t < fuel)%nat -> sup t = true -> abi_has a (reach t) ->
+  reflect fuel a (tyname t) = Some (canon t).
+Definition refl_P0 (fs : fields) : Prop :=
+  forall a f, (height_fields fs < f)%nat -> sup_fields fs = true -> abi_has a (reach_fields fs) ->
+  reflect_fields (reflect f a) (fst (desc_fields fs)) = Some (canon_fields fs).
+
+Lemma abi_has_app a l1 l2 : abi_has a (l1 ++ l2) -> abi_has a l1 /\ abi_has a l2.
+Proof. unfold abi_has. intros H. split; intros n fs Hi; apply H, in_or_app; auto. Qed.
+
+Lemma reflect_mut : (forall t, refl_P t) /\ (forall fs, refl_P0 fs).
+Proof.
+  apply ty_fields_ind_emb; unfold refl_P, refl_P0.
+  - intros p a fuel Hf Hs _. destruct fuel as [|f]; [lia|]. destruct p; try reflexivity; discriminate Hs.
+  - intros a fuel Hf _ _. destruct fuel as [|f]; [lia|]. reflexivity.
+  - intros nm p a fuel _ Hs _. discriminate Hs.
+  - intros t IH a fuel Hf Hs Ha. destruct fuel as [|f]; [lia|]. cbn [height sup reach tyname canon] in *.
+    rewrite reflect_slice, IH; [reflexivity | lia | assumption | assumption].
+  - intros n t IH a fuel Hf Hs Ha. destruct fuel as [|f]; [lia|]. cbn [height sup reach tyname canon] in *.
+    rewrite reflect_array by now apply tyname_nonempty.
+    rewrite IH; [reflexivity | lia | assumption | assumption].
+  - intros nm fs IH a fuel Hf Hs Ha. destruct fuel as [|f]; [lia|]. cbn [height sup reach tyname canon] in *.
+    apply andb_true_iff in Hs as [Hn Hs].
+    rewrite reflect_struct by assumption.
+    rewrite (Ha nm fs (or_introl eq_refl)).
+    rewrite IH; [reflexivity | lia | assumption |].
+    intros n' fs' Hi. apply Ha. now right.
+  - intros a f _ _ _. reflexivity.
+  - intros i t r IHt IHe IHr a f Hf Hs Ha. cbn [height_fields sup_fields reach_fields desc_fields canon_fields] in *.
+    destruct (desc_fields r) as [fr mr] eqn:Er. cbn [fst] in IHr.
+    apply andb_true_iff in Hs as [Hst Hsr].
+    destruct (f_ser i).
+    + apply abi_has_app in Ha as [Hat Har].
+      assert (Hr : reflect_fields (reflect f a) fr = Some (canon_fields r)) by (apply IHr; [lia | assumption | assumption]).
+      assert (Hdef : (height t < f)%nat -> abi_has a (reach t) ->
+                reflect_fields (reflect f a) ((jname i, tyname t) :: fr)
+                = Some (FCons (rfield (jname i)) (canon t) (canon_fields r))).
+      { intros Hh Hh2. cbn [reflect_fields]. rewrite (IHt a f Hh Hst Hh2), Hr. reflexivity. }
+      destruct t as [p| |nm p|t'|n t'|nm fs']; cbn [fst]; try (apply Hdef; [lia | assumption]).
+      destruct (f_emb i); cbn [fst]; [|apply Hdef; [lia | assumption]].
+      destruct (desc_fields fs') as [fe me] eqn:Ee. cbn [fst].
+      rewrite reflect_fields_app, Hr.
+      specialize (IHe nm fs' eq_refl a f). rewrite Ee in IHe. cbn [fst] in IHe.
+      cbn [height sup] in *. apply andb_true_iff in Hst as [_ Hst].
+      rewrite IHe; [reflexivity | lia | assumption | assumption].
+    + cbn [fst]. apply IHr; [lia | assumption | assumption].
+Qed.
+
+(* ---- C2: NewABI's work list describes every reachable struct *)
+Local Close Scope string_scope.
+
+Lemma base_shape t : match base t with TSlice _ | TArray _ _ => False | _ => True end.
+Proof. induction t as [p| |nm p|t' IH|n t' IH|nm fs]; cbn [base]; auto. Qed.
+
+Lemma reach_base t : reach t = reach (base t).
+Proof. induction t as [p| |nm p|t' IH|n t' IH|nm fs]; cbn [base reach]; auto. Qed.
+
+Lemma reach_structs_mut :
+  (forall t, Forall is_struct (reach t)) /\ (forall fs, Forall is_struct (reach_fields fs)).
+Proof.
+  apply ty_fields_ind_emb; cbn [reach reach_fields]; try (intros; constructor); auto.
+  - exists nm, fs. reflexivity.
+  - intros i t r IHt IHe IHr. destruct (f_ser i); [|exact IHr].
+    apply Forall_app. split; [|exact IHr].
+    destruct t as [p| |nm p|t'|n t'|nm fs']; try exact IHt.
+    destruct (f_emb i); [now apply (IHe nm fs') | exact IHt].
+Qed.
+
+(* children of a struct (otherStructsSeen) are structs, and generate exactly the rest of reach *)
+Lemma children_mut :
+  (forall t : ty, True) /\
+  (forall fs, Forall is_struct (snd (desc_fields fs)) /\ reach_fields fs = flat_map reach (snd (desc_fields fs))).
+Proof.
+  apply ty_fields_ind_emb; try (intros; exact I).
+  - split; [constructor | reflexivity].
+  - intros i t r _ IHe [IHr1 IHr2]. cbn [desc_fields reach_fields].
+    destruct (desc_fields r) as [fr mr] eqn:Er. cbn [snd] in IHr1, IHr2.
+    destruct (f_ser i); [|cbn [snd]; auto].
+    assert (Hdef : Forall is_struct (snd ((jname i, tyname t) :: fr,
+                       (match base t with TStruct _ _ => [base t] | _ => [] end) ++ mr)) /\
+                   reach t ++ reach_fields r =
+                   flat_map reach (snd ((jname i, tyname t) :: fr,
+                       (match base t with TStruct _ _ => [base t] | _ => [] end) ++ mr))).
+    { cbn [snd]. rewrite flat_map_app, <- IHr2, (reach_base t). pose proof (base_shape t) as Hb.
+      destruct (base t) as [p| |nm p|t'|n t'|nm fs'] eqn:Eb; try contradiction; cbn [flat_map app reach];
+        try (split; [exact IHr1 | reflexivity]).
+      split; [constructor; [exists nm, fs'; reflexivity | exact IHr1] | now rewrite app_nil_r]. }
+    destruct t as [p| |nm p|t'|n t'|nm fs']; try exact Hdef.
+    destruct (f_emb i).
+    + destruct (IHe nm fs' eq_refl) as [IHe1 IHe2].
+      destruct (desc_fields fs') as [fe me]. cbn [snd] in *.
+      split; [apply Forall_app; auto | rewrite flat_map_app, IHe2, IHr2; reflexivity].
+    + cbn [snd base] in *. exact Hdef.
+Qed.
+
+Lemma children_structs fs : Forall is_struct (snd (desc_fields fs)).
+Proof. apply (proj2 children_mut). Qed.
+
+Lemma reach_children fs : reach_fields fs = flat_map reach (snd (desc_fields fs)).
+Proof. apply (proj2 children_mut). Qed.
+
+Lemma reach_self t : is_struct t -> In t (reach t).
+Proof. intros (nm & fs & ->). left. reflexivity. Qed.
+
+Lemma child_in_reach fs c : In c (snd (desc_fields fs)) -> In c (reach_fields fs).
+Proof.
+  intros Hc. rewrite reach_children. apply in_flat_map. exists c. split; [exact Hc|].
+  apply reach_self. pose proof (children_structs fs) as H. rewrite Forall_forall in H. now apply H.
+Qed.
+
+Lemma reach_trans_mut :
+  (forall t x, In x (reach t) -> incl (reach x) (reach t)) /\
+  (forall fs x, In x (reach_fields fs) -> incl (reach x) (reach_fields fs)).
+Proof.
+  apply ty_fields_ind_emb; cbn [reach reach_fields]; try (intros; contradiction); auto.
+  - intros nm fs IH x [<-|Hx]; [apply incl_refl|]. apply incl_tl. now apply IH.
+  - intros i t r IHt IHe IHr x Hx. destruct (f_ser i); [|now apply IHr].
+    apply in_app_or in Hx as [Hx|Hx]; [apply incl_appl | apply incl_appr; now apply IHr].
+    destruct t as [p| |nm p|t'|n t'|nm fs']; try (now apply IHt).
+    destruct (f_emb i); [now apply (IHe nm fs') | now apply IHt].
+Qed.
+
+Lemma reach_trans t x : In x (reach t) -> incl (reach x) (reach t).
+Proof. apply (proj1 reach_trans_mut). Qed.
+
+Lemma reach_count_mut :
+  (forall t, List.length (reach t) <= nstructs t)%nat /\
+  (forall fs, List.length (reach_fields fs) <= nstructs_fields fs)%nat.
+Proof.
+  apply ty_fields_ind_emb; cbn [reach reach_fields nstructs nstructs_fields List.length]; try lia; auto.
+  - intros i t r IHt IHe IHr. destruct (f_ser i); [|lia]. rewrite app_length.
+    destruct t as [p| |nm p|t'|n t'|nm fs']; try lia.
+    destruct (f_emb i); [|lia]. specialize (IHe nm fs' eq_refl). cbn [nstructs]. lia.
+Qed.
+
+Lemma mem_str_In s l : mem_str s l = true <-> In s l.
+Proof.
+  induction l as [|x l IH]; cbn [mem_str In]; [split; [discriminate | contradiction]|].
+  rewrite orb_true_iff, IH, String.eqb_eq. split; intros [H|H]; auto.
+Qed.
+
+Lemma lookup_in n a : In n (map fst a) -> exists fl, lookup n a = Some fl /\ In (n, fl) a.
+Proof.
+  induction a as [|[m fl] a IH]; cbn [map fst In lookup]; [contradiction|].
+  intros H. destruct (String.eqb_spec m n) as [->|Hne].
+  - exists fl. split; [reflexivity | now left].
+  - destruct H as [H|H]; [contradiction|]. destruct (IH H) as (fl' & H1 & H2). exists fl'. split; [exact H1 | now right].
+Qed.
+
+Section Loop.
+  Variable T : ty.
+
+  Definition Inv (left : list ty) (seen : list string) (acc : list abitype) : Prop :=
+    Forall (fun x => In x (reach T)) left /\
+    (forall n, In n seen <-> In n (map fst acc)) /\
+    (forall n fl, In (n, fl) acc ->
+       exists fs, In (TStruct n fs) (reach T) /\ fl = fst (desc_fields fs) /\ incl (snd (desc_fields fs)) left) /\
+    NoDup seen /\ incl seen (map tyname (reach T)).
+
+  Lemma desc_loop_inv : forall f left seen acc,
+    Inv left seen acc -> (List.length (reach T) <= List.length seen + f)%nat ->
+    exists left', incl left left' /\
+      Inv left' (fst (desc_loop f left seen acc)) (snd (desc_loop f left seen acc)) /\
+      Forall (fun x => In (tyname x) (fst (desc_loop f left seen acc))) left'.
+  Proof.
+    induction f as [|f IH]; intros left seen acc HI Hlen.
+    - cbn [desc_loop fst snd]. exists left. split; [apply incl_refl|]. split; [exact HI|].
+      destruct HI as (H1 & _ & _ & H4 & H5).
+      assert (Hall : incl (map tyname (reach T)) seen).
+      { apply NoDup_length_incl; [exact H4 | rewrite map_length; lia | exact H5]. }
+      rewrite Forall_forall in *. intros x Hx. apply Hall, in_map, H1, Hx.
+    - cbn [desc_loop].
+      destruct (find (fun t => negb (mem_str (tyname t) seen)) left) as [x|] eqn:Ef.
+      + apply find_some in Ef as [Hx Hm]. apply negb_true_iff in Hm.
+        destruct HI as (H1 & H2 & H3 & H4 & H5).
+        assert (HxT : In x (reach T)) by (rewrite Forall_forall in H1; now apply H1).
+        assert (Hxs : is_struct x).
+        { pose proof (proj1 reach_structs_mut T) as Hs. rewrite Forall_forall in Hs. now apply Hs. }
+        destruct Hxs as (nm & fs & ->). cbn [tyname] in Hm.
+        destruct (desc_fields fs) as [fl more] eqn:Ed.
+        assert (Hnot : ~ In nm seen) by (intros Hc; apply mem_str_In in Hc; congruence).
+        destruct (IH (left ++ more) (nm :: seen) (acc ++ [(nm, fl)])) as (left' & Hl1 & Hl2 & Hl3).
+        * repeat split.
+          -- apply Forall_app. split; [exact H1|]. apply Forall_forall. intros c Hc.
+             apply (reach_trans T (TStruct nm fs) HxT). cbn [reach]. right.
+             apply child_in_reach. rewrite Ed. exact Hc.
+          -- rewrite map_app, in_app_iff. cbn [map fst In]. intros [<-|Hn]; [right; now left | left; now apply H2].
+          -- rewrite map_app, in_app_iff. cbn [map fst In]. intros [Hn|[<-|[]]]; [right; now apply H2 | now left].
+          -- intros n fl' Hin. apply in_app_or in Hin as [Hin|[Hin|[]]].
+             ++ destruct (H3 n fl' Hin) as (fs0 & Ha & Hb & Hc). exists fs0. repeat split; auto. now apply incl_appl.
+             ++ injection Hin as <- <-. exists fs. rewrite Ed. repeat split; auto. cbn [snd]. apply incl_appr, incl_refl.
+          -- constructor; assumption.
+          -- intros n [<-|Hn]; [|now apply H5]. change nm with (tyname (TStruct nm fs)). now apply in_map.
+        * cbn [List.length]. lia.
+        * exists left'. split; [|split; assumption]. intros y Hy. apply Hl1, in_or_app. now left.
+      + cbn [fst snd]. exists left. split; [apply incl_refl|]. split; [exact HI|].
+        apply Forall_forall. intros x Hx. pose proof (find_none _ _ Ef x Hx) as Hm.
+        apply negb_false_iff in Hm. now apply mem_str_In.
+  Qed.
+
+  Hypothesis Tstruct : is_struct T.
+  Hypothesis Tcons : consistent T.
+
+  (* closure: the names of all reachable structs are seen once every element of the final work list is *)
+  Section Closure.
+    Variables (left' : list ty) (seen' : list string) (acc' : list abitype).
+    Hypothesis HI : Inv left' seen' acc'.
+    Hypothesis Hdone : Forall (fun x => In (tyname x) seen') left'.
+
+    Let Sn (x : ty) : Prop := In (tyname x) seen'.
+
+    Lemma seen_children n fs : In (TStruct n fs) (reach T) -> In n seen' -> Forall Sn (snd (desc_fields fs)).
+    Proof.
+      intros Hr Hs. destruct HI as (_ & H2 & H3 & _ & _).
+      apply H2 in Hs. apply in_map_iff in Hs as ([n' fl] & Hn & Hin). cbn [fst] in Hn. subst n'.
+      destruct (H3 n fl Hin) as (fs0 & Ha & _ & Hc).
+      rewrite (Tcons n fs fs0 Hr Ha).
+      apply Forall_forall. intros c Hcin. rewrite Forall_forall in Hdone. apply Hdone, Hc, Hcin.
+    Qed.
+
+    Lemma closure_mut :
+      (forall t, incl (reach t) (reach T) -> (is_struct (base t) -> Sn (base t)) -> Forall Sn (reach t)) /\
+      (forall fs, incl (reach_fields fs) (reach T) -> Forall Sn (snd (desc_fields fs)) -> Forall Sn (reach_fields fs)).
+    Proof.
+      apply ty_fields_ind_emb; cbn [reach reach_fields base]; try solve [intros; constructor]; auto.
+      - intros nm fs IH Hinc Hb.
+        assert (Hself : Sn (TStruct nm fs)) by (apply Hb; exists nm, fs; reflexivity).
+        constructor; [exact Hself|]. apply IH.
+        + intros y Hy. apply Hinc. now right.
+        + apply (seen_children nm); [apply Hinc; now left | exact Hself].
+      - intros i t r IHt IHe IHr Hinc Hch. cbn [desc_fields] in Hch.
+        destruct (desc_fields r) as [fr mr] eqn:Er. cbn [snd] in IHr.
+        destruct (f_ser i); [|cbn [snd] in Hch; now apply IHr].
+        apply incl_app_inv in Hinc as [Hi1 Hi2].
+        assert (Hdef : incl (reach t) (reach T) ->
+                       Forall Sn ((match base t with TStruct _ _ => [base t] | _ => [] end) ++ mr) ->
+                       Forall Sn (reach t ++ reach_fields r)).
+        { intros Hi Hf. apply Forall_app in Hf as [Hf1 Hf2]. apply Forall_app. split; [|now apply IHr].
+          apply IHt; [exact Hi|]. intros (nm & fs' & Eb). rewrite Eb in Hf1. rewrite Eb. now inversion Hf1. }
+        destruct t as [p| |nm p|t'|n t'|nm fs']; cbn [snd] in Hch; try (now apply Hdef).
+        destruct (f_emb i).
+        + destruct (desc_fields fs') as [fe me] eqn:Ee. cbn [snd] in Hch.
+          apply Forall_app in Hch as [Hc1 Hc2]. apply Forall_app. split; [|now apply IHr].
+          specialize (IHe nm fs' eq_refl). rewrite Ee in IHe. now apply IHe.
+        + cbn [snd base] in *. apply Hdef; [exact Hi1|]. exact Hch.
+    Qed.
+
+    Lemma all_seen x : In T left' -> In x (reach T) -> In (tyname x) seen'.
+    Proof.
+      intros HT Hx.
+      assert (H : Forall Sn (reach T)).
+      { apply (proj1 closure_mut); [apply incl_refl|]. intros _.
+        destruct Tstruct as (nm & fs & E). rewrite E. cbn [base]. rewrite <- E.
+        rewrite Forall_forall in Hdone. now apply Hdone. }
+      rewrite Forall_forall in H. now apply H.
+    Qed.
+  End Closure.
+
+  Lemma describe_has : abi_has (describe T) (reach T).
+  Proof.
+    unfold describe, new_abi. cbn [fold_left].
+    destruct (desc_loop_inv (S (nstructs T)) [T] [] []) as (left' & Hl & HI & Hdone).
+    - repeat split.
+      + constructor; [now apply reach_self | constructor].
+      + intros [].
+      + intros [].
+      + intros n fl [].
+      + constructor.
+      + intros n [].
+    - pose proof (proj1 reach_count_mut T). cbn [List.length]. lia.
+    - intros n fs Hin.
+      pose proof (all_seen left' _ _ HI Hdone (TStruct n fs) (Hl T (or_introl eq_refl)) Hin) as Hs.
+      cbn [tyname] in Hs.
+      destruct HI as (_ & H2 & H3 & _ & _).
+      apply H2 in Hs. destruct (lookup_in _ _ Hs) as (fl & Hlk & Hfl).
+      destruct (H3 n fl Hfl) as (fs0 & Ha & Hb & _).
+      rewrite Hlk, Hb, (Tcons n fs fs0 Hin Ha). reflexivity.
+  Qed.
+End Loop.
+
+Theorem describe_reflect t :
+  is_struct t -> sup t = true -> consistent t ->
+  forall fuel, (height t < fuel)%nat -> reflect fuel (describe t) (tyname t) = Some (canon t).
+Proof.
+  intros Hs Hsup Hc fuel Hf.
+  apply (proj1 reflect_mut); [exact Hf | exact Hsup | now apply describe_has].
+Qed.
